@@ -152,8 +152,20 @@ def run(index, tier="quick", seed=0) -> Result:
                                                                  (node_.slice.elts if isinstance(node_.slice, ast.Tuple) else [node_.slice]))
             if anchored and ({("self", "_equations"), ("self", "_faces")} & side.deps):
                 verdict = ("anchored", e)
+            elif any(isinstance(t_, tuple) and t_[0] == "reduced" and t_[1] in ("sum", "mean", "nansum") for t_ in side.tags):
+                # a plain (unweighted) reduction of the plane offsets d_i = -n_i . v: under a translation t it changes by
+                # -(sum n_i) . t, and the unit normals of a polyhedron do not add up to zero (only the area-weighted ones do)
+                red = [x for x in r_sf["events"] if x.type == "reduce" and x.func is sf and x.target is not None
+                       and ("self", "_equations") in x.target.al and getattr(x.target, "tr", None) == "TA"]
+                if red:
+                    verdict = ("offset-sum", e)
     if verdict == "volume":
         res.ok("ORI-1", "Polyhedron.sort_faces:global-orientation")
+    elif isinstance(verdict, tuple) and verdict[0] == "offset-sum":
+        e = verdict[1]
+        res.bad("ORI-1", "Polyhedron.sort_faces:offset-sum", e.where(), f"Polyhedron.sort_faces decides the common orientation of all faces from the plain sum of "
+                f"the plane offsets (`{e.src()[:60]}`): that sum moves with the origin by -(sum of unit normals) . t, so an off-origin solid whose "
+                "normals are not balanced (a frustum, a pyramid) gets all faces turned inward; the signed volume is the translation-invariant test")
     elif isinstance(verdict, tuple):
         e = verdict[1]
         res.bad("ORI-1", "Polyhedron.sort_faces:single-face", e.where(), f"Polyhedron.sort_faces decides the common orientation of all faces from one face "
